@@ -23,15 +23,16 @@ type uniqIdx struct {
 }
 
 type table struct {
-	def     TableDef
-	colIdx  map[string]int // lower(name) -> index
-	pk      []int
-	uniq    []uniqIdx
-	autoCol int // index of the AUTO_INCREMENT column or -1
-	rows    map[string]*rowRec
-	nextRID int64
-	autoInc int64 // next auto-increment value
-	virtual bool  // information_schema view: no locks, read-only
+	def      TableDef
+	colIdx   map[string]int // lower(name) -> index
+	pk       []int
+	uniq     []uniqIdx
+	autoCol  int // index of the AUTO_INCREMENT column or -1
+	rows     map[string]*rowRec
+	nextRID  int64
+	autoInc  int64 // next auto-increment value
+	autoStep int64 // auto_increment_increment (0/1: none)
+	virtual  bool  // information_schema view: no locks, read-only
 }
 
 type lockEnt struct {
@@ -95,8 +96,20 @@ type Engine struct {
 	faults   []*faultState
 	fired    int
 	clock    func() time.Time
-	interp   bool // emulate interpolateParams=true (text protocol for conn-level queries with args)
-	skipFast bool // emulate interpolateParams=false fully: conn-level Exec/Query with arguments answer driver.ErrSkip
+	interp   bool  // emulate interpolateParams=true (text protocol for conn-level queries with args)
+	skipFast bool  // emulate interpolateParams=false fully: conn-level Exec/Query with arguments answer driver.ErrSkip
+	autoStep int64 // auto_increment_increment of this server (0 or 1: every value; offset is 1)
+}
+
+// SetAutoIncStep sets the server's auto_increment_increment (auto_increment_offset stays 1): generated
+// values are 1, 1+n, 1+2n, ... and a statement that generates several values spaces them n apart.
+func (e *Engine) SetAutoIncStep(n int64) {
+	e.mu.Lock()
+	defer e.mu.Unlock()
+	e.autoStep = n
+	for _, t := range e.tables {
+		t.autoStep = n
+	}
 }
 
 // New creates an empty engine for the schema dbName.
@@ -231,6 +244,7 @@ func (e *Engine) createTableLocked(def TableDef) error {
 	if err != nil {
 		return err
 	}
+	t.autoStep = e.autoStep
 	e.tables[l] = t
 	return nil
 }
@@ -347,6 +361,18 @@ func (t *table) sortRecs(recs []*rowRec) {
 	})
 }
 
+// nextAuto is the value the next generated key takes: the smallest value >= the counter that is
+// congruent to the offset (1) modulo the step
+func (t *table) nextAuto() int64 {
+	v := t.autoInc
+	if t.autoStep > 1 {
+		for v%t.autoStep != 1%t.autoStep {
+			v++
+		}
+	}
+	return v
+}
+
 func (t *table) bumpAuto(vals Row) {
 	if t.autoCol >= 0 {
 		if v, ok := vals[t.autoCol].(int64); ok && v >= t.autoInc {
@@ -375,7 +401,7 @@ func (e *Engine) InsertRows(name string, rows ...Row) error {
 			}
 			c := &t.def.Cols[i]
 			if i == t.autoCol && (v == nil || v == int64(0)) {
-				v = t.autoInc
+				v = t.nextAuto()
 			}
 			if vals[i], err = coerce(c, v); err != nil {
 				return err
